@@ -455,8 +455,8 @@ def v_aframe(rng, codec):
     if k == 2:
         return good[:rng.range(1, 6)]
     if k == 3:
-        g = bytearray(good); g[0] = rng.choice([0xFE, 0x00, 0xFF]); g[1] = rng.choice([0x0F, 0xE1, 0xF1, g[1]])
-        return bytes(g)
+        g = bytearray(good + b"\x00\x00"); g[0] = rng.choice([0xFE, 0x00, 0xFF]); g[1] = rng.choice([0x0F, 0xE1, 0xF1, g[1]])
+        return bytes(g[:max(2, len(good))])
     return good
 
 
